@@ -2566,48 +2566,39 @@ def concurrent_parametric_checks(ctx: Ctx, n_sets: int):
 
 
 # ---------------------------------------------------------------------------------------------
-# CachedMeasurementFactory stores whatever iterable the wrapped factory returned.  The factory type only promises an
-# Iterable: with a factory that returns a one-shot iterator the second request for the same content (a cache hit) is
-# handed the iterator the first caller already consumed, i.e. an empty grouping.  Present on the unchanged tree (all
-# in-tree factories return tuples, so only a user-supplied factory meets it): replayed every run, judged under its own
-# narrow key once that key is a listed finding, recorded as an observation until then.
+# CachedMeasurementFactory must serve EVERY request for equal content the grouping of that content, whatever kind of
+# iterable the wrapped factory returns (the factory type only promises an Iterable: a one-shot generator / iterator that
+# is cached as it is would be handed out exhausted on the cache hit; repaired in /repo by fc1fb9e, which stores a tuple).
 # ---------------------------------------------------------------------------------------------
-KEY_ONE_SHOT = "cached-measurement-factory-one-shot-iterable"
-
-
 def cache_one_shot_iterable_probe(ctx: Ctx):
     from quri_parts.core.measurement import CachedMeasurementFactory, bitwise_commuting_pauli_measurement
     from quri_parts.core.operator import Operator, pauli_label
 
-    listed = any(k["property"] == "C20" and k["key"] == KEY_ONE_SHOT for k in load_known_findings())
-    op = Operator({pauli_label("X0 Y1"): 1.0, pauli_label("Z0"): 2.0})
-    res = {}
-    for form, wrap in (("generator", lambda o: (g for g in bitwise_commuting_pauli_measurement(o))),
-                       ("iterator", lambda o: iter(bitwise_commuting_pauli_measurement(o))),
-                       ("tuple", lambda o: tuple(bitwise_commuting_pauli_measurement(o)))):
-        try:
-            fac = CachedMeasurementFactory(wrap)
-            res[form] = [len(list(fac(op))), len(list(fac(op.copy())))]
-        except Exception as e:  # noqa: BLE001
-            res[form] = "err:" + type(e).__name__
-        ctx.traces += 1
-    want = len(bitwise_commuting_pauli_measurement(op))
-    ctx.extra["cached_factory_second_request_group_counts"] = res
-    if res.get("tuple") != [want, want]:
-        # a re-iterable result must be served twice: this is not the known finding
-        ctx.witness("cache:CachedMeasurementFactory", "the second request for the same content did not get the grouping of that content",
-                    {"operator": "1*X0 Y1 + 2*Z0", "factory": "returns a tuple"}, {"group_counts": res.get("tuple"), "want": [want, want]})
-    broken = [f for f in ("generator", "iterator") if res.get(f) != [want, want]]
-    if broken and listed:
-        ctx.witness(KEY_ONE_SHOT, "CachedMeasurementFactory caches the one-shot iterable its factory returned: the second request for the same "
-                    "operator content is served the exhausted iterator (an empty grouping)",
-                    {"calls": ["fac = CachedMeasurementFactory(lambda op: (g for g in bitwise_commuting_pauli_measurement(op)))",
-                               "op = 1*X0 Y1 + 2*Z0", "list(fac(op))", "list(fac(op.copy()))"]},
-                    {"group_counts_first_second": {f: res[f] for f in broken}, "want": [want, want]})
-    elif broken:
-        ctx.extra.setdefault("observations_not_judged", []).append(
-            "GENUINE (narrow) DEFECT awaiting a known_findings line (key " + KEY_ONE_SHOT + "): CachedMeasurementFactory wrapped around a factory that "
-            f"returns a generator / iterator serves the second request for the same content an exhausted iterator: group counts {res}")
+    def groups(it):
+        return sorted(sorted(str(p_) for p_ in g.pauli_set) for g in it)
+
+    for terms in ({"X0 Y1": 1.0, "Z0": 2.0}, {"X0": 1.0, "Y0": -1.0, "Z0 Z1": 0.5, "X1": 3.0}):
+        op = Operator({pauli_label(k_): v_ for k_, v_ in terms.items()})
+        want = groups(bitwise_commuting_pauli_measurement(op))
+        for form, wrap in (("generator", lambda o: (g for g in bitwise_commuting_pauli_measurement(o))),
+                           ("iterator", lambda o: iter(bitwise_commuting_pauli_measurement(o))),
+                           ("list", lambda o: list(bitwise_commuting_pauli_measurement(o))),
+                           ("tuple", lambda o: tuple(bitwise_commuting_pauli_measurement(o)))):
+            try:
+                fac = CachedMeasurementFactory(wrap)
+                got = [groups(fac(op)), groups(fac(op.copy())), groups(fac(op))]
+            except Exception as e:  # noqa: BLE001 - the real code's behaviour is an output
+                got = "err:" + type(e).__name__
+            ctx.traces += 1
+            ctx.count("cache", "one-shot-probe:" + form)
+            if got != [want, want, want]:
+                ctx.witness("cache:CachedMeasurementFactory-one-shot-iterable",
+                            "a repeated request for equal operator content was not served the grouping of that content "
+                            "(the iterable returned by the wrapped factory was cached as it is and is exhausted on the cache hit)",
+                            {"operator": terms, "wrapped_factory_returns": form,
+                             "calls": ["fac = CachedMeasurementFactory(<bitwise_commuting_pauli_measurement wrapped to return a " + form + ">)",
+                                       "fac(op)", "fac(op.copy())", "fac(op)"]},
+                            {"group_counts": got if isinstance(got, str) else [len(x) for x in got], "want": [len(want)] * 3})
 
 
 # ---------------------------------------------------------------------------------------------
